@@ -344,4 +344,21 @@ theorem world_past_independent_of_future (w : World) (past future future' : List
   rw [RQ.Lemmas.WorldB.run_append, RQ.Lemmas.WorldB.run_append]
   simp
 
+
+/-- **no fill from a bar that has not happened (repaired, finding F43)**: at daily frequency, while the clock is still at 00:00 — before_trading,
+the opening auction and every handler that runs then — the matcher does nothing to an order that is not matched as an auction order: it rests
+until the bar.  (The unrepaired matcher filled such orders at the coming day's close.) -/
+theorem no_match_before_the_open (cfg : MCfg) (ic : InsCfg) (o : Ord) (b : MBar) (tv : Int) (cash : R) (fee : Int → R → R) (ct : Int → Int) :
+    matchOrderAt true cfg ic o b false tv cash fee ct = .rest := by
+  simp [matchOrderAt]
+
+/-- … and inside the composed world: before the bar of a daily run a matcher call on a non-auction order changes nothing and publishes nothing -/
+theorem world_no_trade_before_the_open (w : World) (o : Ord) (hd : w.cfg.daily = true)
+    (hp : w.phase = .before ∨ w.phase = .auction) :
+    w.matchOne false o = (w, o, []) := by
+  unfold World.matchOne
+  split
+  · rfl
+  · rcases hp with hp | hp <;> simp [hd, hp]
+
 end RQ.Props.C07
